@@ -26,6 +26,10 @@ type inprocTransport struct {
 	Hook func(req *http.Request, resp *http.Response) *http.Response
 	// Log receives one line per round trip when non-nil.
 	Log func(string)
+	// MaxRequests > 0 bounds the number of round trips (progress budget): beyond it every
+	// round trip fails and Exceeded is set, so that a client looping without progress terminates.
+	MaxRequests int
+	Exceeded    bool
 }
 
 type errReader struct {
@@ -46,6 +50,13 @@ func (t *inprocTransport) count() { t.Requests++ }
 
 func (t *inprocTransport) RoundTrip(req *http.Request) (*http.Response, error) {
 	t.count()
+	if t.MaxRequests > 0 && t.Requests > t.MaxRequests {
+		t.Exceeded = true
+		if req.Body != nil {
+			req.Body.Close()
+		}
+		return nil, fmt.Errorf("inproc transport: request budget of %d exceeded", t.MaxRequests)
+	}
 	var body []byte
 	if req.Body != nil {
 		var err error
